@@ -689,8 +689,9 @@ impl Monitor for C03 {
             if beyond {
                 out.push(viol("C03", "price_beyond_limit", ev.idx, format!("price {} beyond limit {}", o.post.sqrt_price, lim)));
             }
-            // partial use only at the limit (plain tokens: balances equal the specified side)
-            if o.plain {
+            // partial use only at the limit. The specified side is what leaves the trader's input account (exact-in, transfer fee
+            // included) resp. what arrives in the trader's output account (exact-out, after the fee), with or without transfer fees
+            {
                 let used_all = if a.is_input { paid == a.amount as u128 } else { got == a.amount as u128 };
                 if !used_all && !at_limit {
                     out.push(viol("C03", "partial_fill_not_at_limit", ev.idx, format!("used {} of {} but the final price {} is not the limit {}", if a.is_input { paid } else { got }, a.amount, o.post.sqrt_price, lim)));
